@@ -1,6 +1,7 @@
 package gosym
 
 import (
+	"sync/atomic"
 	"fmt"
 	"go/types"
 	"os"
@@ -59,6 +60,22 @@ type Config struct {
 	UnwindFn     map[string]int
 	Deadline     time.Time
 	NoPanicCheck bool
+	// ViolAt (shared by the coordinator and the workers of one harness) holds the
+	// time of the first violation that no known finding covers. Exploration carries
+	// on for violGrace after it and is then cut short: the verdict no longer depends
+	// on the remaining paths (a reproduced violation is exit 1; one that does not
+	// reproduce is inconclusive), and a broken tree often explodes in paths.
+	ViolAt *int64
+}
+
+const violGrace = 45 * time.Second
+
+func (in *Interp) cutShort() bool {
+	if in.cfg.ViolAt == nil {
+		return false
+	}
+	v := atomic.LoadInt64(in.cfg.ViolAt)
+	return v != 0 && time.Since(time.Unix(0, v)) > violGrace
 }
 
 type Stats struct {
@@ -264,6 +281,10 @@ func (in *Interp) RunHarness(fn *ssa.Function) error {
 		}
 		if !in.cfg.Deadline.IsZero() && time.Now().After(in.cfg.Deadline) {
 			in.inconclusive = append(in.inconclusive, "time budget exhausted")
+			break
+		}
+		if in.cutShort() {
+			in.inconclusive = append(in.inconclusive, "exploration cut short 45 s after the first violation")
 			break
 		}
 	}
